@@ -69,7 +69,18 @@ func vGenRegion(name string, k int, compl bool) Region {
 		r = rr
 	}
 	if compl {
-		r = r.Complement()
+		// built by hand (not through the code under test): segments in reverse order, each (tail, head)
+		switch v := r.(type) {
+		case Segment:
+			r = Segment{v[1], v[0]}
+		case Regions:
+			rr := make(Regions, len(v))
+			for j := range v {
+				s := v[len(v)-1-j].(Segment)
+				rr[j] = Segment{s[1], s[0]}
+			}
+			r = rr
+		}
 	}
 	return r
 }
@@ -129,6 +140,14 @@ func vC08Resize(k int, compl bool) {
 	p1, r1 := vPos(os, t)
 	p0, r0 := vPos(rs, lo+t)
 	vAssert("pos", vAnd(p1 == p0, r1 == r0))
+	// strand mirroring: the complement of the region, computed by the code, reads the same bases backwards
+	cs := vSegs(R.Complement())
+	vAssert("complement-length", vSegsLen(cs) == n)
+	u := vIntIn("u", 0, 8*vCap)
+	vAssume(u < n)
+	pc, rc := vPos(cs, u)
+	pr, rr := vPos(rs, n-1-u)
+	vAssert("complement-mirrors", vAnd(pc == pr, rc != rr))
 	if k == 1 {
 		// single segment: a collapsed result sits exactly at the requested boundary
 		s := rs[0]
